@@ -46,7 +46,10 @@ KINDS = gen.ALL_KINDS + ["dict_bool", "dict_spin", "dict_bool", "dict_spin"]
 # strategies
 
 def _source(n_min=2):
-    return polysrc.source(KINDS, n_min=n_min)
+    plain = polysrc.source(KINDS, n_min=n_min)
+    # a quarter of the sources over the label pools built to upset key ordering (int / float mixes, strings whose
+    # natural and lexicographic orders differ, equal str(), equal hashes); at least three labels
+    return st.one_of(plain, plain, plain, polysrc.source(KINDS, n_min=max(n_min, 3), order_pools=True))
 
 
 def _slot(cls):
